@@ -113,6 +113,32 @@ def main():
                 res['stext'] = res['back'] = {'exc': 'BadScriptResult', 'msg': repr(r)[:200]}
         except Exception as e:  # pylint: disable=broad-except
             res['stext'] = res['back'] = exc(e)
+        # the same value with every repeated (equal) sub-container made ONE shared object: sharing without a cycle is not a circular reference
+        try:
+            memo, hits = {}, [0]
+
+            def share(x):
+                if isinstance(x, list):
+                    y = [share(e) for e in x]
+                elif isinstance(x, dict):
+                    y = {k: share(e) for k, e in x.items()}
+                else:
+                    return x
+                key = repr(y)
+                if key in memo:
+                    hits[0] += 1
+                    return memo[key]
+                memo[key] = y
+                return y
+            v2 = share(v)
+            if hits[0]:
+                logs2 = []
+                r2 = execute_script(SCRIPT_PLAIN if indent is None else SCRIPT_INDENT,
+                                    {'globals': {'v': v2, 'indent': indent}, 'logFn': logs2.append, 'debug': True})
+                res['shared_text'] = r2[0] if isinstance(r2, list) and len(r2) == 2 and isinstance(r2[0], str) else \
+                    {'exc': 'NotAString', 'msg': repr(r2)[:200] + ' log=' + ' | '.join(logs2)[:300]}
+        except Exception as e:  # pylint: disable=broad-except
+            res['shared_text'] = exc(e)
         out.append(res)
     json.dump(out, sys.stdout)
 
